@@ -132,7 +132,9 @@ def register(S):
                 if np < 0:
                     return ctx.ret(err(Opaque.make("io_error", kind="InvalidInput")))
                 ctx.ip.write_loc(ctx.st, sref.loc, v.set(pos=np))
-                return ctx.ret(ok(IntVal.const(IntTy(64, False), np)))
+                # the frame may start anywhere in the caller's stream: the absolute position reported by the source is the
+                # frame-relative position plus an unknown non-negative base, so only its lower bound is known
+                return ctx.ret(ok(IntVal(IntTy(64, False), np, (1 << 63) - 1)))
             raise Inconclusive("seek with non-constant offset")
         return NotImplemented
 
